@@ -118,17 +118,23 @@ func (d *rawDecoder) Scan(ctx context.Context) (DecodedAmmo, error) {
 			return nil, xerrors.Errorf("header decoding error for ammoNum %d: %w", d.ammoNum, err)
 		}
 
-		a := d.pool.Get().(*ammo.RawAmmo)
+		var buff []byte
 		if reqSize != 0 {
-			buff, n, err := readBody(d.reader, reqSize)
+			var n int
+			buff, n, err = readBody(d.reader, reqSize)
 			if err != nil {
 				return nil, xerrors.Errorf("failed to read ammo with err: %w, at position: %v; tried to read: %v; have read: %v", err, position, reqSize, n)
 			}
-
-			a.Setup(buff, tag, position, d.decodedConfigHeaders)
 		} else {
-			a.Setup(nil, "", position, d.decodedConfigHeaders)
+			tag = ""
 		}
+		// The request itself is parsed when an instance acquires the ammo, where a failure can only
+		// look like the end of ammo: reject an entry that is not an HTTP request here.
+		if _, err := raw.DecodeRequest(buff); err != nil {
+			return nil, xerrors.Errorf("failed to decode ammo with err: %w, at position: %v; data: %q", err, position, buff)
+		}
+		a := d.pool.Get().(*ammo.RawAmmo)
+		a.Setup(buff, tag, position, d.decodedConfigHeaders)
 		return a, nil
 	}
 }
